@@ -344,6 +344,8 @@ struct Item<'f, 'a> {
     glyph_cap: usize,
     history_runs: usize,
     thread_run: bool,
+    /// `--profile tsan`: only the baseline, one reused-instance history and the thread section (f) run
+    threads_only: bool,
 }
 
 /// The hinting options + instance for a configuration; `None` when unhinted.
@@ -555,13 +557,15 @@ fn eval_item(it: &Item) -> Report {
     };
 
     // ---- (a) repeat through the same instance
-    for (gi, (_, g)) in glyphs.iter().enumerate() {
-        let o = draw_obs(g, &sel0, None, &mut panics);
-        compare(&mut rep, "a-repeat", gi, &o, Value::Null);
+    if !it.threads_only {
+        for (gi, (_, g)) in glyphs.iter().enumerate() {
+            let o = draw_obs(g, &sel0, None, &mut panics);
+            compare(&mut rep, "a-repeat", gi, &o, Value::Null);
+        }
     }
 
     // ---- (e) other preceding draws: second fresh instance, shuffled order; per-glyph fresh instance
-    {
+    if !it.threads_only {
         let i1 = new_instance(f, cfg, &coords).and_then(|r| r.ok());
         let sel1 = match &i1 {
             Some(i) => Sel::Hinted { inst: i, pedantic },
@@ -592,7 +596,7 @@ fn eval_item(it: &Item) -> Report {
     }
 
     // ---- (b) caller memory
-    {
+    if !it.threads_only {
         let max_need = glyphs.iter().map(|(_, g)| g.draw_memory_size(hinting)).max().unwrap_or(0);
         let mut big = vec![0x5Au8; max_need + 64 + 16];
         for (gi, (gid, g)) in glyphs.iter().enumerate() {
@@ -642,7 +646,7 @@ fn eval_item(it: &Item) -> Report {
     }
 
     // ---- (c) no location vs explicit all-zero location
-    if cfg.coords.iter().all(|c| *c == 0) {
+    if !it.threads_only && cfg.coords.iter().all(|c| *c == 0) {
         let zlen = if f.axes == 0 { 1 + it.k % 2 } else { f.axes + (it.k % 3 == 2) as usize };
         let zeros = vec![NormalizedCoord::ZERO; zlen];
         let none: [NormalizedCoord; 0] = [];
@@ -932,6 +936,11 @@ fn load_fonts<'a>(corpus: &'a [vf_core::CorpusFont], synth: &'a [(String, Vec<u8
 }
 
 fn item_params(ctx: &Ctx, k: usize) -> (usize, usize, bool) {
+    if ctx.profile == "tsan" {
+        // ThreadSanitizer build (5-15x slower): few glyphs, one history (its reused instance is the one the threads share
+        // for odd k), always the thread section
+        return (ctx.tier.pick(6, 10), 1, true);
+    }
     let glyph_cap = ctx.tier.pick(40, 96);
     let history_runs = ctx.tier.pick(2, 4);
     let thread_run = ctx.tier.pick(k % 3 == 0, k % 2 == 0);
@@ -941,9 +950,11 @@ fn item_params(ctx: &Ctx, k: usize) -> (usize, usize, bool) {
 fn run_item(ctx: &mut Ctx, fonts: &[Fnt], fi: usize, k: usize) {
     let cfg = config_for(&fonts[fi], k, ctx.seed);
     let (glyph_cap, history_runs, thread_run) = item_params(ctx, k);
-    let it = Item { fonts, fi, k, cfg, seed: ctx.seed, glyph_cap, history_runs, thread_run };
+    let it = Item { fonts, fi, k, cfg, seed: ctx.seed, glyph_cap, history_runs, thread_run, threads_only: ctx.profile == "tsan" };
     let label = || format!("{} k={} {}", fonts[fi].name, k, it.cfg.code());
-    match ctx.run_case(&label, Some(fonts[fi].font.table_directory.offset_data().as_bytes()), &|| eval_item(&it)) {
+    // (under ThreadSanitizer the cpu-time bound of `run_case` does not apply: the slow-down is the instrumentation's)
+    let r = if it.threads_only { guard(|| eval_item(&it)) } else { ctx.run_case(&label, Some(fonts[fi].font.table_directory.offset_data().as_bytes()), &|| eval_item(&it)) };
+    match r {
         Ok(rep) => apply(ctx, rep),
         Err(p) => {
             // a panic outside the per-draw guards: instance construction, reconfigure, memory sizing
@@ -970,7 +981,16 @@ pub fn run(ctx: &mut Ctx, _args: &Args) {
     let fonts = load_fonts(&corpus, &synth);
     ctx.extra.insert("fonts_with_outlines".into(), json!(fonts.len()));
     ctx.extra.insert("fonts_with_truetype_programs".into(), json!(fonts.iter().filter(|f| f.tt_programs).map(|f| f.name.clone()).collect::<Vec<_>>()));
-    let per_font = ctx.tier.pick(540usize, 4000);
+    // `--profile tsan` (extra stage "tsan", /verif/tools/stage_tsan.sh): binary and std are built with ThreadSanitizer.
+    // Only baseline + one reconfigure history + the 16-thread section (f) of every item run, for the first 24
+    // configurations of every font (these cover unhinted, HarfBuzz style and all four hinting engines). A data race on the
+    // shared `&HintingInstance` / font data ends the process with a TSan report (exit 66), which the driver turns into a
+    // violation; the equality oracle of (f) stays on.
+    let tsan = ctx.profile == "tsan";
+    if tsan {
+        ctx.assumptions.push("tsan slice: per item only the serial baseline, one reconfigure history and the 16 threads drawing through one shared instance run (24 configurations per font, <= 10 glyphs each); ThreadSanitizer watches every access (std instrumented too, -Zbuild-std)".into());
+    }
+    let per_font = if tsan { ctx.tier.pick(4usize, 24) } else { ctx.tier.pick(540usize, 4000) };
     let mut item = 0usize;
     for k in 0..per_font {
         // a fresh permutation of the fonts per round so that a shard does not always get the same (cheap or costly) fonts
@@ -986,7 +1006,7 @@ pub fn run(ctx: &mut Ctx, _args: &Args) {
         }
     }
     // directed: the IDEF-retention question (instance.rs setup() resizes `instructions` without clear)
-    if ctx.shard.0 == 0 {
+    if ctx.shard.0 == 0 && !tsan {
         synth::idef_probe(ctx, &fonts);
     }
 }
